@@ -569,6 +569,8 @@ func exchange(u *vk.Unit, p *reg.Package, m reg.Method, cm reflect.Value, args [
 			switch {
 			case strings.Contains(where, ": float ") && isParamsArg(a):
 				cl = "conv-float-precision10"
+			case strings.Contains(where, ": float ") && valgen.FloatNear(where):
+				cl = "float64-json-decode-off-by-one-ulp"
 			case isParamsArg(a) && whitespaceOnlyDifference(a, got):
 				cl = "header-value-whitespace-normalised"
 			case emptyPiece:
@@ -672,6 +674,8 @@ func exchange(u *vk.Unit, p *reg.Package, m reg.Method, cm reflect.Value, args [
 		switch {
 		case strings.Contains(where, ": float ") && !strings.Contains(where, ".Response"):
 			cl = "conv-float-precision10"
+		case strings.Contains(where, ": float ") && valgen.FloatNear(where):
+			cl = "float64-json-decode-off-by-one-ulp"
 		case strings.Contains(where, "types "):
 			cl = "response-variant-changed"
 			if anyNilElem([]reflect.Value{resp}) {
